@@ -1,1 +1,157 @@
-harnesses! {}
+//! C07 — Euclidean distance (PARTIAL: only the pairs that do not go through the R-tree
+//! nearest-neighbour path).  `f32` + S-HYPOT (+ S-ORIENT where intersects is consulted).
+use crate::gen::*;
+use crate::oracle::*;
+use crate::Src;
+use geo::{Distance, Euclidean, Intersects};
+use geo_types::{Geometry, Line, Point, Polygon};
+
+/// squared distance from p to segment [a,b] as an exact rational num/den (den > 0)
+pub fn pt_seg_d2(p: P, a: P, b: P) -> (W, W) {
+    let sq = |u: P, v: P| (u.0 - v.0) * (u.0 - v.0) + (u.1 - v.1) * (u.1 - v.1);
+    if a == b {
+        return (sq(p, a), 1);
+    }
+    let len2 = sq(a, b);
+    let dot = (p.0 - a.0) * (b.0 - a.0) + (p.1 - a.1) * (b.1 - a.1);
+    if dot <= 0 {
+        (sq(p, a), 1)
+    } else if dot >= len2 {
+        (sq(p, b), 1)
+    } else {
+        let d = det(a, b, p);
+        (d * d, len2)
+    }
+}
+
+fn close(d: f32, num: W, den: W) -> bool {
+    // d^2 * den within 1e-4 relative of num (all quantities are small integers)
+    let lhs = d * d * (den as f32);
+    let n = num as f32;
+    (lhs - n).abs() <= 0.0001 * n + 0.000001
+}
+
+pub fn point_point<S: Src>(s: &mut S, n: i8) {
+    let (a, b) = (gp(s, n), gp(s, n));
+    let (pa, pb) = (Point(cf(a)), Point(cf(b)));
+    let d = Euclidean.distance(&pa, &pb);
+    let want = (a.0 - b.0) * (a.0 - b.0) + (a.1 - b.1) * (a.1 - b.1);
+    assert!(d >= 0.0, "distance is negative or NaN");
+    assert!((d == 0.0) == (a == b), "distance is zero although the points differ (or non-zero for equal points)");
+    assert!(close(d, want, 1), "point-point distance differs from the true distance");
+    assert!(Euclidean.distance(&pb, &pa) == d, "point-point distance is not symmetric");
+    assert!(Euclidean.distance(cf(a), cf(b)) == d, "Coord form differs from Point form");
+    assert!(Euclidean.distance(pa, pb) == d, "by-value Point form differs");
+    vcover!(a.0 == b.0 && a.1 != b.1, "vertical offset only");
+}
+
+pub fn point_line<S: Src>(s: &mut S, n: i8, x0: Option<i8>) {
+    let p = match x0 {
+        Some(x) => gp_x(s, x, x, n),
+        None => gp(s, n),
+    };
+    let (a, b) = (gp(s, n), gp(s, n));
+    let (pp, l) = (Point(cf(p)), line_f(a, b));
+    let d = Euclidean.distance(&pp, &l);
+    let (num, den) = pt_seg_d2(p, a, b);
+    assert!(d >= 0.0, "distance is negative or NaN");
+    assert!((d == 0.0) == on_segment(p, a, b), "point-line distance is zero exactly when the point is on the segment: violated");
+    assert!(close(d, num, den), "point-line distance differs from the true minimum distance");
+    assert!(Euclidean.distance(&l, &pp) == d, "line-point distance is not symmetric");
+    assert!(Euclidean.distance(cf(p), &l) == d, "Coord form differs from Point form");
+    vcover!(a == b, "zero-length segment");
+    vcover!(den > 1 && num > 0, "closest approach in the interior of the segment");
+    vcover!(den == 1 && num > 0 && a != b, "closest approach at an end point");
+}
+
+pub fn line_line<S: Src>(s: &mut S, n: i8) {
+    let (a, b, c, d) = (gp(s, n), gp(s, n), gp(s, n), gp(s, n));
+    let (l1, l2) = (line_f(a, b), line_f(c, d));
+    let dist = Euclidean.distance(&l1, &l2);
+    let share = segs_share_point(a, b, c, d);
+    assert!(dist >= 0.0, "distance is negative or NaN");
+    assert!((dist == 0.0) == share, "line-line distance is zero exactly when the segments intersect: violated");
+    if !share {
+        // the minimum is attained at an end point of one of them
+        let cands = [pt_seg_d2(a, c, d), pt_seg_d2(b, c, d), pt_seg_d2(c, a, b), pt_seg_d2(d, a, b)];
+        let mut best = cands[0];
+        let mut i = 1;
+        while i < 4 {
+            // cands[i] < best  <=>  n_i * d_b < n_b * d_i
+            if cands[i].0 * best.1 < best.0 * cands[i].1 {
+                best = cands[i];
+            }
+            i += 1;
+        }
+        assert!(close(dist, best.0, best.1), "line-line distance differs from the true minimum distance");
+    }
+    assert!(Euclidean.distance(&l2, &l1) == dist, "line-line distance is not symmetric");
+    vcover!(!share && orient(a, b, c) == 0 && orient(a, b, d) == 0 && a != b, "collinear disjoint segments");
+    vcover!(share, "intersecting");
+}
+
+/// concrete triangle with a concrete triangular hole, symbolic query point
+pub fn point_polygon<S: Src>(s: &mut S, n: i8) {
+    let shell: [P; 4] = [(-3, -3), (3, -3), (-3, 3), (-3, -3)];
+    let hole: [P; 4] = [(-2, -2), (-2, 0), (0, -2), (-2, -2)];
+    let q = gp(s, n);
+    let g: Polygon<f32> = poly_f(&shell, &[&hole]);
+    let pq = Point(cf(q));
+    let d = Euclidean.distance(&pq, &g);
+    let pos = polygon_pos(q, &shell, &[&hole]);
+    assert!(d >= 0.0, "distance is negative or NaN");
+    assert!((d == 0.0) == (pos != Pos::Exterior), "point-polygon distance is zero exactly when the point is inside or on the polygon: violated");
+    if pos == Pos::Exterior {
+        let mut best = pt_seg_d2(q, shell[0], shell[1]);
+        let mut i = 1;
+        while i < 3 {
+            let c = pt_seg_d2(q, shell[i], shell[i + 1]);
+            if c.0 * best.1 < best.0 * c.1 {
+                best = c;
+            }
+            i += 1;
+        }
+        i = 0;
+        while i < 3 {
+            let c = pt_seg_d2(q, hole[i], hole[i + 1]);
+            if c.0 * best.1 < best.0 * c.1 {
+                best = c;
+            }
+            i += 1;
+        }
+        assert!(close(d, best.0, best.1), "point-polygon distance differs from the true minimum distance");
+    }
+    assert!(Euclidean.distance(&g, &pq) == d, "polygon-point distance is not symmetric");
+    vcover!(pos == Pos::Exterior && ring_pos(q, &shell) == Pos::Interior, "point inside the hole");
+    vcover!(pos == Pos::Exterior && ring_pos(q, &shell) == Pos::Exterior, "point outside the shell");
+    vcover!(pos == Pos::Boundary, "point on the boundary");
+    core::mem::forget(g);
+}
+
+/// Geometry enum wrapper gives the same value
+pub fn wrapper<S: Src>(s: &mut S, n: i8) {
+    let (p, a, b) = (gp(s, n), gp(s, n), gp(s, n));
+    let (pp, l) = (Point(cf(p)), line_f(a, b));
+    let d = Euclidean.distance(&pp, &l);
+    let (g1, g2) = (Geometry::Point(pp), Geometry::Line(l));
+    assert!(Euclidean.distance(&g1, &g2) == d, "Geometry wrapper changes the distance");
+    assert!(Euclidean.distance(&g2, &g1) == d, "Geometry wrapper: not symmetric");
+    let _ = Line::new(cf(a), cf(b)).intersects(&cf(p));
+}
+
+harnesses! {
+    #[kani::stub(f32::hypot, crate::stubs::hypot_f32)] fn c07_point_point_g8(s) { point_point(s, 8) }
+    #[kani::stub(f32::hypot, crate::stubs::hypot_f32)] fn c07_point_line_g1(s) { point_line(s, 1, None) }
+    #[kani::stub(f32::hypot, crate::stubs::hypot_f32)] fn c07_point_line_g2_x0(s) { point_line(s, 2, Some(-2)) }
+    #[kani::stub(f32::hypot, crate::stubs::hypot_f32)] fn c07_point_line_g2_x1(s) { point_line(s, 2, Some(-1)) }
+    #[kani::stub(f32::hypot, crate::stubs::hypot_f32)] fn c07_point_line_g2_x2(s) { point_line(s, 2, Some(0)) }
+    #[kani::stub(f32::hypot, crate::stubs::hypot_f32)] fn c07_point_line_g2_x3(s) { point_line(s, 2, Some(1)) }
+    #[kani::stub(f32::hypot, crate::stubs::hypot_f32)] fn c07_point_line_g2_x4(s) { point_line(s, 2, Some(2)) }
+    #[kani::stub(f32::hypot, crate::stubs::hypot_f32)] #[kani::stub(robust::orient2d, crate::stubs::orient2d_small)] fn c07_line_line_g1(s) { line_line(s, 1) }
+    #[kani::unwind(7)] #[kani::stub(f32::hypot, crate::stubs::hypot_f32)] #[kani::stub(robust::orient2d, crate::stubs::orient2d_small)] fn c07_point_polygon_g4(s) { point_polygon(s, 4) }
+    #[kani::unwind(7)] #[kani::stub(f32::hypot, crate::stubs::hypot_f32)] #[kani::stub(robust::orient2d, crate::stubs::orient2d_small)] fn c07_wrapper_g1(s) { wrapper(s, 1) }
+    #[kani::stub(f32::hypot, crate::stubs::hypot_f32)] fn c07_sanity_must_fail(s) {
+        point_point(s, 2);
+        assert!(false, "sanity twin reached its end");
+    }
+}
